@@ -10,9 +10,11 @@
 package pfs
 
 import (
+	"bytes"
 	"context"
 	"errors"
 	"fmt"
+	"io"
 	"os"
 	"path/filepath"
 	"reflect"
@@ -21,9 +23,11 @@ import (
 	"strconv"
 	"strings"
 	"sync"
+	"sync/atomic"
 	"syscall"
 	"testing"
 	"time"
+	"unsafe"
 
 	"github.com/vimeo/dials"
 	djson "github.com/vimeo/dials/decoders/json"
@@ -232,6 +236,11 @@ type C17Setup struct {
 type C17Case struct {
 	C17Setup
 	Ops []C17Op `json:"ops"`
+	// Burst > 0: the last Burst (1..3) operations are applied during an
+	// "overflow burst": the watcher is parked inside a decode, the inotify
+	// queue of the watcher is flooded until the kernel drops events, the
+	// operations run (their notifications are dropped), the watcher is let go.
+	Burst int `json:"burst,omitempty"`
 }
 
 var c17Pauses = map[int]bool{0: true, 1: true, 30: true}
@@ -491,8 +500,30 @@ func genC17Converge(t *rapid.T) C17Case {
 	if !endsValid && last >= 0 && ops[last].Content != "new" {
 		ops[last].Content, ops[last].Doc = "new", spare
 	}
-	return C17Case{C17Setup: s, Ops: ops}
+	c := C17Case{C17Setup: s, Ops: ops}
+	// overflow burst: a small fixed fraction of the cases (it costs a few
+	// tenths of a second)
+	isBurst := rapid.SampledFrom(c17BurstDie).Draw(t, "burst")
+	k := rapid.IntRange(1, 3).Draw(t, "burst_ops")
+	if isBurst {
+		if k > len(ops) {
+			k = len(ops)
+		}
+		if !endsValid && k > len(ops)-1-last {
+			// the settle step before a trailing invalid stretch cannot
+			// happen while the watcher is parked
+			k = len(ops) - 1 - last
+		}
+		for i := len(ops) - k; i < len(ops); i++ {
+			ops[i].Settle = false
+		}
+		c.Burst = k
+	}
+	return c
 }
+
+// one case in sixteen
+var c17BurstDie = []bool{true, false, false, false, false, false, false, false, false, false, false, false, false, false, false, false}
 
 // ------------------------------------------------------------------ the world
 
@@ -960,6 +991,10 @@ type c17Run struct {
 	baseFD int
 	baseG  int
 	labels []string
+	// overflow burst only
+	gate    *c17Gate
+	reload  chan os.Signal
+	baseFDs map[string]bool
 }
 
 func (r *c17Run) label(l string) {
@@ -971,14 +1006,158 @@ func (r *c17Run) label(l string) {
 	r.labels = append(r.labels, l)
 }
 
+// c17Gate wraps the real decoder. When armed, the next Decode parks after it
+// has consumed the file (so the watcher sits in the middle of a re-read) until
+// the gate is opened.
+type c17Gate struct {
+	inner   dials.Decoder
+	armed   atomic.Bool
+	entered chan struct{} // capacity 1
+	release chan struct{}
+	once    sync.Once
+}
+
+func (g *c17Gate) Decode(r io.Reader, t *dials.Type) (reflect.Value, error) {
+	b, err := io.ReadAll(r)
+	if err != nil {
+		return reflect.Value{}, err
+	}
+	if g.armed.CompareAndSwap(true, false) {
+		g.entered <- struct{}{}
+		<-g.release
+	}
+	return g.inner.Decode(bytes.NewReader(b), t)
+}
+
+// open lets a parked (or any later) Decode through, for good.
+func (g *c17Gate) open() {
+	g.armed.Store(false)
+	g.once.Do(func() { close(g.release) })
+}
+
+func c17InotifyFDSet() map[string]bool {
+	out := map[string]bool{}
+	ents, err := os.ReadDir("/proc/self/fd")
+	if err != nil {
+		return out
+	}
+	for _, e := range ents {
+		if l, err := os.Readlink("/proc/self/fd/" + e.Name()); err == nil && l == "anon_inode:inotify" {
+			out[e.Name()] = true
+		}
+	}
+	return out
+}
+
+// c17Queued is the number of bytes of events waiting in an inotify
+// descriptor's kernel queue (FIONREAD); it consumes nothing.
+func c17Queued(fd int) int {
+	var n int32
+	if _, _, e := syscall.Syscall(syscall.SYS_IOCTL, uintptr(fd), 0x541B /* FIONREAD */, uintptr(unsafe.Pointer(&n))); e != 0 {
+		return -1
+	}
+	return int(n)
+}
+
+const c17MaxQueue = 1 << 17 // larger fs.inotify.max_queued_events: the burst is skipped
+
+// beginBurst parks the watcher inside a decode and floods its inotify queue
+// until the kernel drops events. It never fails a case: when a precondition
+// does not come true the burst is skipped (label) and the operations run as
+// usual.
+func (r *c17Run) beginBurst() {
+	skip := func(why string) {
+		r.gate.open()
+		r.label("overflow-skipped:" + why)
+	}
+	b, err := os.ReadFile("/proc/sys/fs/inotify/max_queued_events")
+	qlen, convErr := strconv.Atoi(strings.TrimSpace(string(b)))
+	if err != nil || convErr != nil || qlen <= 0 || qlen > c17MaxQueue {
+		skip("queue-limit")
+		return
+	}
+	fd := -1
+	for name := range c17InotifyFDSet() {
+		if !r.baseFDs[name] {
+			if fd >= 0 {
+				skip("descriptor")
+				return
+			}
+			fd, _ = strconv.Atoi(name)
+		}
+	}
+	if fd < 0 || c17Queued(fd) < 0 {
+		skip("descriptor")
+		return
+	}
+	// 1. quiet: no event pending anywhere (kernel queue empty, fsnotify's
+	// reader waiting for the descriptor, watch loop in its select), so that
+	// no notification from before the burst triggers a re-read after it.
+	quiet := func() bool {
+		if c17Queued(fd) != 0 {
+			return false
+		}
+		k, _ := c17IdleOnce()
+		return k == "parked" && c17Queued(fd) == 0
+	}
+	if !c17Await(quiet) {
+		skip("not-quiet")
+		return
+	}
+	// 2. park the watcher in a re-read triggered through the reload channel
+	r.gate.armed.Store(true)
+	select {
+	case r.reload <- syscall.SIGHUP:
+	default:
+	}
+	entered := func() bool {
+		select {
+		case <-r.gate.entered:
+			return true
+		default:
+			return false
+		}
+	}
+	if !c17Await(entered) {
+		skip("not-parked")
+		return
+	}
+	r.label("overflow-burst")
+	// 3. flood the watched directory with events for an unrelated name.
+	// mkdir and rmdir alternate, so the kernel cannot coalesce them. The queue
+	// is full (and an overflow marker queued) once it stops growing.
+	junk := filepath.Join(r.w.root, "zz-junk")
+	limit := 2*qlen + 8192
+	prev := c17Queued(fd)
+	for i := 0; i < limit; i++ {
+		c17Must(os.Mkdir(junk, 0o755))
+		c17Must(os.Remove(junk))
+		if i%256 == 255 {
+			n := c17Queued(fd)
+			if n == prev && n >= qlen*16 {
+				r.label("overflow-seen")
+				break
+			}
+			prev = n
+		}
+	}
+}
+
 // c17Start lays out the files and starts dials on them. A non-nil verdict
 // ends the case.
-func c17Start(s C17Setup) (*c17Run, *vrt.Verdict) {
+func c17Start(s C17Setup, gated bool) (*c17Run, *vrt.Verdict) {
 	r := &c17Run{obs: &c17Obs{}}
 	r.baseFD = c17InotifyFDs()
 	r.baseG = c17CountWatcherGors()
 	r.w = c17NewWorld(s)
-	ws, err := file.NewWatchingSource(r.w.visible, c17Decoder(s.Decoder), file.WithLogger(r.obs))
+	dec, opts := c17Decoder(s.Decoder), []file.WatchOpt{file.WithLogger(r.obs)}
+	if gated {
+		r.baseFDs = c17InotifyFDSet()
+		r.gate = &c17Gate{inner: dec, entered: make(chan struct{}, 1), release: make(chan struct{})}
+		r.reload = make(chan os.Signal, 1)
+		dec, opts = r.gate, append(opts, file.WithSignalChannel(r.reload))
+	}
+	ws, err := file.NewWatchingSource(r.w.visible, dec, opts...)
 	if err != nil {
 		r.w.close()
 		v := vrt.Violationf("NewWatchingSource(%q): %v", r.w.visible, err)
@@ -1011,6 +1190,9 @@ func c17Start(s C17Setup) (*c17Run, *vrt.Verdict) {
 
 // finish cancels and cleans up without checking anything.
 func (r *c17Run) finish() {
+	if r.gate != nil {
+		r.gate.open()
+	}
 	r.cancel()
 	r.w.close()
 }
@@ -1137,6 +1319,9 @@ func (r *c17Run) classify(ops []C17Op) string {
 // release cancels the context and checks that the watcher lets go of its
 // goroutines and inotify descriptors.
 func (r *c17Run) release() *vrt.Verdict {
+	if r.gate != nil {
+		r.gate.open()
+	}
 	r.cancel()
 	done := make(chan struct{})
 	go func() { r.ws.WG.Wait(); close(done) }()
